@@ -1,0 +1,23 @@
+//go:build verif
+
+// Contract for batch inversion (comment-only; installed by /verif/gcv gen-contracts). Layer "ring Element"; the
+// bit set that records the zero entries (github.com/bits-and-blooms/bitset) is opaque. Thin contract: the call is
+// total (every index is in range), returns a new slice of the same length, and leaves its argument unchanged.
+// That res[i] is the inverse of a[i] (Montgomery's trick: prefix products, one inversion, backward pass) needs the
+// field axioms and an inductive product decomposition, and is NOT under contract.
+
+package fr
+
+//@ func BatchInvert
+//@ layer ring Element
+//@ option opaque New Set Test
+//@ option nomerge
+//@ loop 0
+//@ + invariant[forward] 0 <= i && i <= len(a) && len(res) == len(a) && forall(j, 0, len(a), a[j] == old(a[j]))
+//@ loop 1
+//@ + invariant[backward] -1 <= i && i <= len(a) - 1 && len(res) == len(a) && forall(j, 0, len(a), a[j] == old(a[j]))
+//@ ensures[length] len(result) == len(a)
+//@ ensures[input] forall(j, 0, len(a), a[j] == old(a[j]))
+//@ ensures[fresh] fresh(result)
+//@ modifies nothing
+//@ end
